@@ -23,6 +23,17 @@ Theorem C03_fh_from_fit_or_predict : forall hf hp h, used_fh hf hp = Ok h ->
 Proof. exact used_fh_spec. Qed.
 Print Assumptions C03_fh_from_fit_or_predict.
 
+(* ... and that is the only place a horizon is needed: passed to fit, to predict or to both, the
+   program gives the same cutoffs, labels and values, whatever the updates in between and whether
+   or not they refit (update_params=True) - a refit before any horizon has been seen included *)
+Theorem C03_horizon_needed_only_at_predict : forall leaf s ups refit h,
+  program_run leaf s ups refit None (Some h) = Ok (model_run leaf s ups refit h) /\
+  program_run leaf s ups refit (Some h) None = Ok (model_run leaf s ups refit h) /\
+  program_run leaf s ups refit (Some h) (Some h) = Ok (model_run leaf s ups refit h) /\
+  program_run leaf s ups refit None None = Err.
+Proof. exact program_horizon. Qed.
+Print Assumptions C03_horizon_needed_only_at_predict.
+
 Theorem C03_cutoff_after_fit : forall s, cutoff (fit_state s) = t0 s + zlen (ys s) - 1.
 Proof. exact cutoff_after_fit. Qed.
 Print Assumptions C03_cutoff_after_fit.
@@ -99,5 +110,11 @@ Example C03_nonvacuous :
   let ups := [(12, [Some 32; Some 64]%Q); (14, [])] in
   contiguous (fit_state s) ups /\
   model_run (Some (FNaive SMean 2 (Some 3))) s ups false (Abs [14; 17])
-  = ([11; 13; 13], [14; 17], Some (Ok [Some 32%Q; Some (80 # 2)%Q])).
+  = ([11; 13; 13], [14; 17], Some (Ok [Some 32%Q; Some (80 # 2)%Q])) /\
+  (* refit on every update, horizon only passed to predict; drift on the default window *)
+  program_run (Some (FNaive SDrift 1 None)) s ups true None (Some (Rel [1; 3]))
+  = Ok ([11; 13; 13], [14; 16], Some (Ok [Some (447 # 6)%Q; Some (573 # 6)%Q])) /\
+  (* the configurations fit rejects have no values *)
+  program_run (Some (FNaive SDrift 1 None)) {| t0 := 0; ys := [Some 5%Q] |} [] false None
+              (Some (Rel [1])) = Ok ([0], [1], Some Err).
 Proof. vm_compute. repeat split; try reflexivity; right; reflexivity. Qed.
